@@ -1277,12 +1277,82 @@ def regenerate_evap() -> bool:
     return _write(GEN_DIR / "Evap.lean", _parse_guard(translate_evap, source("utils.py")))
 
 
+def _cfg_term(o, ind):
+    """a parsed YAML value as a `Cfg α` term; numbers as exact decimals of their text/repr"""
+    pad = "  " * ind
+    if isinstance(o, dict):
+        if not o:
+            return ".node []"
+        items = []
+        for k, v in o.items():
+            if not isinstance(k, str):
+                raise TranslatorError(f"default config: non-string key {k!r}")
+            items.append(f"{pad}  ({lean_str(k)}, {_cfg_term(v, ind + 1)})")
+        return ".node [\n" + ",\n".join(items) + "]"
+    if o is None:
+        return ".leaf .null"
+
+    def dec(text):
+        q = Fraction(text)
+        k = 0
+        while q.denominator != 1:
+            q *= 10
+            k += 1
+            if k > 400:
+                raise TranslatorError(f"default config: number {text!r} is not a finite decimal")
+        m = q.numerator
+        return f"(Num.lit {m} {k})" if m >= 0 else f"(Num.lit ({m}) {k})"
+    if isinstance(o, bool):
+        return f".leaf (.num {dec('1' if o else '0')})"
+    if isinstance(o, int):
+        return f".leaf (.num {dec(str(o))})"
+    if isinstance(o, float):
+        if o != o or o in (float("inf"), float("-inf")):
+            raise TranslatorError("default config: non-finite number")
+        return f".leaf (.num {dec(repr(o))})"
+    if isinstance(o, str):
+        try:
+            float(o)
+            return f".leaf (.nstr {dec(o.strip().replace('_', ''))} {lean_str(o)})"
+        except (ValueError, ZeroDivisionError):
+            return f".leaf (.str {lean_str(o)})"
+    raise TranslatorError(f"default config: value of type {type(o).__name__} is not translated")
+
+
+def translate_default_cfg(text: str) -> str:
+    import yaml
+    try:
+        o = yaml.load(text, Loader=yaml.FullLoader)
+    except Exception as e:
+        raise TranslatorError(f"default config does not parse: {e}")
+    if not isinstance(o, dict):
+        raise TranslatorError("default config is not a mapping")
+    return (
+        "/-\n  GENERATED by harness/translate.py from src/ethz_snow/config/snowConfig_default.yaml - DO NOT EDIT.\n"
+        "  The shipped default configuration as a `Cfg α` tree (numbers as the exact decimals of the file;\n"
+        "  a string that `float()` accepts, e.g. `2500.9e3`, keeps its text).  Regenerated on every run of C19;\n"
+        "  SnowProofs/Props/C19.lean proves on it that the generated read paths use default keys only, that it is\n"
+        "  well-typed and that `calculateDerived` returns constants for it (inhabitation of the hypotheses).\n-/\n"
+        "import SnowModel.Num\nimport SnowModel.Config\n\nnamespace Snow.Gen\nvariable {α : Type} [Num α]\n\n"
+        "/-- `yaml.load(snowConfig_default.yaml)` -/\ndef defaultCfg : Cfg α :=\n  " + _cfg_term(o, 1) + "\n\nend Snow.Gen\n")
+
+
+def regenerate_default_cfg() -> bool:
+    p = core.REPO / "src" / "ethz_snow" / "config" / "snowConfig_default.yaml"
+    try:
+        text = p.read_text()
+    except OSError as e:
+        raise TranslatorError(f"cannot read {p}: {e}")
+    return _write(GEN_DIR / "DefaultCfg.lean", translate_default_cfg(text))
+
+
 def regenerate_derived() -> bool:
     return _write(GEN_DIR / "Derived.lean", _parse_guard(translate_derived, source("constants.py")))
 
 
 if __name__ == "__main__":
-    for nm, f in (("Evap.lean", regenerate_evap), ("Derived.lean", regenerate_derived)):
+    for nm, f in (("Evap.lean", regenerate_evap), ("Derived.lean", regenerate_derived),
+                  ("DefaultCfg.lean", regenerate_default_cfg)):
         try:
             print(nm, "rewritten" if f() else "unchanged")
         except TranslatorError as e:
